@@ -62,6 +62,7 @@ ByteOK == st[1] = "byte" =>
    /\ (b \in 0..23 => IncMod(b, 24) = (b + 1) % 24) /\ (b \in 0..59 => IncMod(b, 60) = (b + 1) % 60)
    /\ (b \in 1..12 => IncModOffset(b, 12, 1) = (b % 12) + 1) /\ (b \in 1..31 => IncModOffset(b, 31, 1) = (b % 31) + 1)
    /\ (b \in 0..99 => IncYearTiny(b) = (b + 1) % 100)                        \* the year helper wraps 99 -> 0
+   /\ (\A m \in 1..255 : IncMod(b, m) \in 0..(m - 1) /\ (b < m => IncMod(b, m) = (b + 1) % m))   \* the helper with an explicit modulus
    /\ (b \in 0..126 => IncYearTiny(b) \in 0..99)                            \* ... and absorbs every year 2000..2126 into its interval
 Dump == DumpOn =>
    PrintT(ToJson(CASE st[1] = "period" -> <<"period", st[2]>> \o FromSeconds(st[2])
